@@ -89,6 +89,9 @@ def core_part(c, pid="P1", name="Pno"):
     spec = {"id": pid, "name": name, "divs": q, "objs": objs}
     if c.get("abbr"):
         spec["abbr"] = c["abbr"]
+    if c.get("qh"):
+        # declaration history of the divisions table (mc/c03_model._build_part_phased); `q` is its final table
+        spec["qh"] = c["qh"]
     return M.finish_part(spec)
 
 
@@ -457,9 +460,14 @@ def apply_deco(pid, objs, d, k):
         o = {"k": "dynwords", "s": d[1], "text": d[3]}
         if d[2] is not None:
             o["e"] = d[2]
+        if len(d) > 4 and d[4] is not None:
+            o["raw"] = d[4]  # the printed words (Direction.raw_text)
         objs.append(o)
     elif kind == "cdir":
-        objs.append({"k": "cdir", "s": d[1], "fam": d[2], "text": d[3]})
+        o = {"k": "cdir", "s": d[1], "fam": d[2], "text": d[3]}
+        if len(d) > 4 and d[4] is not None:
+            o["raw"] = d[4]
+        objs.append(o)
     elif kind == "bferm":
         objs.append({"k": "fermata", "s": d[1], "ref": d[2], "bar": True})
     else:
@@ -657,6 +665,66 @@ def gen_C_cdirs(extended):
                 yield {"sp": "C5", "m": meas, "ts": [[0, 1, 4]], "ev": ev, "deco": deco}
 
 
+# C6: the printed words of directions (letter case, abbreviations) and process-wide state between files
+
+# (kind of spec object, family, canonical text, printed base form)
+C6_KINDS = (
+    ("cdir", "loud", "dolce", "dolce"),
+    ("cdir", "tempo", "adagio", "adagio"),
+    ("cdir", "artic", "legato", "legato"),
+    ("dynwords", None, "crescendo", "cresc."),
+    ("dynwords", None, "ritardando", "rit."),
+)
+C6_CASES = ("lower", "capitalize", "upper")
+
+
+def _c6_tokens():
+    out = []
+    for ki, (kind, fam, text, base) in enumerate(C6_KINDS):
+        for cs in C6_CASES:
+            out.append((ki, getattr(base, cs)()))
+    return out
+
+
+def _c6_deco(tok, t):
+    kind, fam, text, _ = C6_KINDS[tok[0]]
+    if kind == "cdir":
+        return ["cdir", t, fam, text, tok[1]]
+    return ["dynwords", t, None, text, tok[1]]
+
+
+def gen_C_wordcase():
+    """Directions whose printed words (Direction.raw_text, written into <words>) differ from the canonical text in
+    letter case or by being an abbreviation.  Two 1/4 measures with an onset at every grid time 0..3; direction
+    tokens = {dolce, adagio, legato, cresc., rit.} x {lower case, Capitalised, UPPER CASE} (15); every single token
+    at every grid time; every ordered pair of tokens at two grid times t1 < t2 (the same words in the same and in
+    another letter case included) and every ordered pair of tokens of different kinds at one grid time."""
+    toks = _c6_tokens()
+    base = {"sp": "C6", "m": [[0, 2], [2, 4]], "ts": [[0, 1, 4]], "ev": CDIR_CORES[0]}
+    for a in toks:
+        for t in range(4):
+            yield dict(base, deco=[_c6_deco(a, t)])
+    for a in toks:
+        for b in toks:
+            for t1 in range(4):
+                for t2 in range(t1, 4):
+                    if t1 == t2 and a[0] == b[0]:
+                        continue
+                    yield dict(base, deco=[_c6_deco(a, t1), _c6_deco(b, t2)])
+
+
+def gen_C_wordcase_sequences():
+    """Two files handled one after the other in one process (state that outlives a load_musicxml / save_musicxml
+    call): score A = one token of gen_C_wordcase at grid time 0, then score B = one token at any grid time; every
+    (A, B) (15 x 60); each score is checked on its own with all clauses."""
+    toks = _c6_tokens()
+    base = {"sp": "C6", "m": [[0, 2], [2, 4]], "ts": [[0, 1, 4]], "ev": CDIR_CORES[0]}
+    for a in toks:
+        for b in toks:
+            for t in range(4):
+                yield {"sp": "C6s", "seq": [dict(base, deco=[_c6_deco(a, 0)]), dict(base, deco=[_c6_deco(b, t)])]}
+
+
 # ---------------------------------------------------------------------------------------------
 # D: attribute changes
 
@@ -717,6 +785,103 @@ def gen_D_attributes():
             if a[0] == b[0] and a[1] == b[1] and (a[0] != "clef" or a[2] == b[2]):
                 continue  # two signatures of one kind (or two clefs of one staff) at one time
             yield {"sp": "D2", "m": [[0, 4], [4, 8]], "ev": ev, "attr": [a, b], "staves": 2}
+
+
+# D3: the order in which the divisions (quarter durations) of a part are declared
+
+
+def q_histories(final, values, bursts_at=("S", "E"), cuts=("0", "S", "E"), lmax=3):
+    """Declaration histories of the divisions table `final` = [[t, q], ...]: Part(quarter_duration=init) followed
+    by calls set_quarter_duration(t, q), t in the times of `final`, init and q in `values`, every call made at a
+    cut of the construction ("0" before any object, "S" after the structure objects, "E" after all objects).
+    Enumerated: every init and every sequence of <= lmax calls whose result is `final` and in which every call changes
+    the table (mc/c03_model.q_final); sequences of <= 2 calls with every non-decreasing assignment of cuts,
+    sequences of 3 and more calls with all calls at one cut ("burst") of `bursts_at`."""
+    times = [t for t, _ in final]
+    alpha = [(t, q) for t in times for q in values]
+    out = []
+    for init in values:
+        for n in range(0, lmax + 1):
+            for calls in product(alpha, repeat=n):
+                if M.q_final(init, calls) != [list(x) for x in final]:
+                    continue
+                if n <= 2:
+                    for cs in product(range(len(cuts)), repeat=n):
+                        if list(cs) == sorted(cs):
+                            out.append({"init": init, "calls": [[cuts[c], t, q] for c, (t, q) in zip(cs, calls)]})
+                else:
+                    for b in bursts_at:
+                        out.append({"init": init, "calls": [[b, t, q] for t, q in calls]})
+    return out
+
+
+def _third(vals):
+    """the smallest value of 1..4 that is not in vals (a value the final table does not use)"""
+    return min(v for v in (1, 2, 3, 4) if v not in vals)
+
+
+D3_PAIRS = ((1, 2), (2, 1), (2, 3), (3, 2))
+
+
+def gen_D_declaration_order():
+    """Divisions change q0 -> q1 after the first quarter, (q0, q1) in D3_PAIRS, in the middle of a 2/4 measure or at
+    the barline of two 1/4 measures; cores = all sets of <= 2 notes (every span with a single symbol inside a
+    divisions segment x voice{1,2}, staff = voice) with a time point at the change; symbolic durations explicit or
+    left to the library (estimated from TimePoint.quarter); x every declaration history of q_histories over the
+    values {q0, q1, a third value} (67 per core)."""
+    for q0, q1 in D3_PAIRS:
+        c = q0
+        final = [[0, q0], [c, q1]]
+        hist = q_histories(final, (q0, q1, _third((q0, q1))))
+        for two in (False, True):
+            segs = [(0, q0), (q0, q0 + q1)]
+            meas = [[0, q0], [q0, q0 + q1]] if two else [[0, q0 + q1]]
+            alpha = []
+            for (lo, hi), q in zip(segs, (q0, q1)):
+                durs = [d for d in range(1, hi - lo + 1) if M.sym_for(Fraction(d, q)) is not None]
+                for (s, e) in spans(lo, hi, durs):
+                    for v in (1, 2):
+                        alpha.append(["n", s, e, v, v])
+            for n in (1, 2):
+                for comb in combinations(alpha, n):
+                    if not (two or any(c in (x[1], x[2]) for x in comb)):
+                        continue  # a change inside a measure without a time point: sub-space X1
+                    for nosym in (False, True):
+                        for h in hist:
+                            case = {"sp": "D3", "q": final, "m": meas, "ts": [[0, 1, 4]] if two else [[0, 2, 4]],
+                                    "ev": [list(x) for x in comb], "qh": h}
+                            if nosym:
+                                case["nosym"] = True
+                            yield case
+
+
+D3_TRIPLES = ((1, 2, 1), (2, 1, 2), (1, 2, 3), (3, 2, 1))
+
+
+def gen_D_declaration_order_3():
+    """Three 1/4 measures with divisions (q0, q1, q2) in D3_TRIPLES, changes at the barlines; cores = all sets of
+    <= 2 notes of voice 1 (every span with a single symbol inside a measure); explicit or estimated symbolic
+    durations; declaration histories over the values {q0, q1, q2, a further value}: every init and every sequence
+    of <= 3 effective calls that ends in the table, all non-decreasing cuts for <= 2 calls, bursts at "S"/"E" for 3."""
+    for qs in D3_TRIPLES:
+        bars = [0, qs[0], qs[0] + qs[1], qs[0] + qs[1] + qs[2]]
+        final = [[bars[i], qs[i]] for i in range(3)]
+        vals = tuple(sorted(set(qs))) + (_third(qs),)
+        hist = q_histories(final, vals)
+        meas = [[bars[i], bars[i + 1]] for i in range(3)]
+        alpha = []
+        for (lo, hi), q in zip(meas, qs):
+            durs = [d for d in range(1, hi - lo + 1) if M.sym_for(Fraction(d, q)) is not None]
+            for (s, e) in spans(lo, hi, durs):
+                alpha.append(["n", s, e, 1, 1])
+        for n in (1, 2):
+            for comb in combinations(alpha, n):
+                for nosym in (False, True):
+                    for h in hist:
+                        case = {"sp": "D3b", "q": final, "m": meas, "ts": [[0, 1, 4]], "ev": [list(x) for x in comb], "qh": h}
+                        if nosym:
+                            case["nosym"] = True
+                        yield case
 
 
 # ---------------------------------------------------------------------------------------------
